@@ -56,7 +56,9 @@ def expected(mod, top=(), ignore=(), ser=False):
             if k == 'ns':
                 sub = path + (d['name'],)
                 if all(a == b for a, b in zip(sub, top)) and len(sub) > len(top):
-                    exp['submodules'].append((modvar(sub, top), modvar(path, top), d['name']))
+                    entry = (modvar(sub, top), modvar(path, top), d['name'])
+                    if entry not in exp['submodules']:      # a namespace opened again reuses its submodule
+                        exp['submodules'].append(entry)
                 rec(None, d['content'], sub)
                 continue
             if not inside:
